@@ -5641,14 +5641,17 @@ class CodegenCtx:
     def _escape_string(self, value: Union[bytes, str]):
         result = ""
         if type(value) is str:
-            bytes_value = value.encode('utf-8')
+            # string constants hold one byte per character (see _convert_string)
+            bytes_value = value.encode('latin-1')
         else:
             bytes_value = value
         for i in bytes_value:
-            if chr(i) in ["\\", '"']:
+            if chr(i) in ["\\", '"', "?"]:
+                # (the question mark is escaped so that no trigraph can form)
                 result += "\\" + chr(i)
             elif not (32 <= i < 127):
-                result += "\\x{:02x}".format(i)
+                # always three octal digits: unlike \\x an octal escape cannot swallow the characters after it
+                result += "\\{:03o}".format(i)
             else:
                 result += chr(i)
         return result
@@ -5662,10 +5665,7 @@ class CodegenCtx:
         Must ensure value is short enough first.
         """
 
-        if isinstance(value, str):
-            escaped_length = len(value.encode('utf-8'))
-        else:
-            escaped_length = len(value)
+        escaped_length = len(value)
 
         return f"memcpy(state->c.{into.name}, \"{self._escape_string(value)}\", {escaped_length if not into.str_null else escaped_length+1});"
 
